@@ -1420,20 +1420,30 @@ def itemstash_rules(fb, R):
         R.check(ok, r3, key + '#live-count-incremented', fn.site, 'add_item must ++%s exactly once on every path' % live)
     # lookups by role: every ItemStash method that takes a handle and indexes the index vector (helpers or inlined into their callers)
     nlook = 0
+    lookup_ok = True
+    lookup_site = rec.file + ':%d' % rec.line
     for fn in fns:
         hp = [p_ for p_ in fn.params if p_['tC'].replace('const ', '').strip().rstrip('&').strip().endswith('handle_type')]
         if not hp:
             continue
-        accs = [(a, c, i) for (a, c, i) in U.vector_accesses(fb, fn) if fn.is_this_member(c, idx_f)]
+        accs = []
+        for (a, c, i) in U.vector_accesses(fb, fn):
+            fp = U._field_path(fn, c)      # the index vector of this stash, or of the stash handed to a static helper
+            if fp is not None and fp[1] == (idx_f,) and fp[0][0] in ('this', 'param'):
+                accs.append((a, c, i))
         if not accs:
             continue
         nlook += 1
-        good = True
         for (a, c, i) in accs:
             x = U.scn(fn, i)
-            good = good and x is not None and x.get('k') == 'binop' and x.get('op') == '-' and fn.const_value(x['rhs']) == 1 \
+            good = x is not None and x.get('k') == 'binop' and x.get('op') == '-' and fn.const_value(x['rhs']) == 1 \
                 and (fn.root_var(x['lhs']) or (None, None))[:2] == ('var', hp[0]['d'])
-        R.check(good, r3, fn.q + '#slot-is-handle-value-minus-one', fn.site, '%s must read %s[handle.value - 1] (handles are 1-based slot numbers)' % (fn.q, idx_f))
+            if not good:
+                lookup_ok = False
+                lookup_site = fn.loc(a['id'])
+    if nlook:
+        R.check(lookup_ok, r3, ITEMSTASH + '#slot-is-handle-value-minus-one', lookup_site,
+                'every lookup must read %s[handle.value - 1] (handles are 1-based slot numbers)' % idx_f)
     if nlook == 0:
         R.broken('ItemStash: no method that resolves a handle through %s found' % idx_f)
     for fn in byname.get('clear', []):
@@ -1523,6 +1533,8 @@ def itemstash_rules(fb, R):
         n = f.sn(cond)
         if n is None:
             return 'unknown'
+        if n.get('k') == 'var' and n.get('vk') == 'local' and n['d'] not in U.assigned_vars(f) and U.local_init(f, n['d']) is not None:
+            return mono(f, U.local_init(f, n['d']), sense)      # named test
         if n.get('k') == 'unop' and n.get('op') == '!':
             return mono(f, n['sub'], not sense)
         if n.get('k') == 'binop' and n.get('op') in ('&&', '||'):
@@ -1548,25 +1560,32 @@ def itemstash_rules(fb, R):
         R.broken('ItemStash::add_item: the function that decides about a garbage collection was not identified')
     for fn in deciders.values():
         dom = fn.dominators()
+        key = '%s#monotone-in-removed' % fn.q        # one instance per decision function, whatever its statement structure
+        nret = 0
         for ret in _returns(fn):
+            nret += 1
             v = fn.const_value(ret['sub'])
-            key = '%s#return-%s' % (fn.q, {0: 'false', 1: 'true'}.get(v, 'expression'))
             site = fn.loc(ret['id'])
             if v is None:
                 d = mono(fn, ret['sub'], True)
                 R.check(d != 'dec', r5, key, site,
-                        '%s returns an expression that turns false as %s grows: with more removed items the stash would stop collecting' % (fn.q, removed))
-                continue
+                        '%s returns an expression that turns false as %s grows: with more removed items the stash would stop collecting' % (fn.q, removed),
+                        'returned expression: %s' % d)
+                # fall through: a non-constant return may also sit under a deciding test
             gs = U.guards(fn, ret['id'])
-            blocks = {b for (c, s_, b, o) in gs}
-            near = [b for b in blocks if all(o == b or o in dom.get(b, ()) for o in blocks)]
-            dirs = {mono(fn, c, s_) for (c, s_, b, o) in gs if near and b == near[0] and U.cmp_parts(fn, c) is not None}
+            blocks = {b_ for (c, s_, b_, o) in gs}
+            near = [b_ for b_ in blocks if all(o == b_ or o in dom.get(b_, ()) for o in blocks)]
+            dirs = {mono(fn, c, s_) for (c, s_, b_, o) in gs if near and b_ == near[0]} - {'const', 'unknown'}
+            if v is None:
+                continue
             # the test that immediately selects this return: `false` may only be chosen by an upper bound on the removed count, `true` by a lower bound
             wrong = 'inc' if v == 0 else 'dec'
             R.check(wrong not in dirs, r5, key, site,
-                    '%s returns %s under a test that gets %s likely as %s grows: more removed items must never turn "collect" into "do not collect" '
-                    '(the stash would stop reclaiming space exactly when removed items dominate)' % (fn.q, 'false' if v == 0 else 'true', 'more', removed),
+                    '%s returns %s under a test that gets more likely as %s grows: more removed items must never turn "collect" into "do not collect" '
+                    '(the stash would stop reclaiming space exactly when removed items dominate)' % (fn.q, 'false' if v == 0 else 'true', removed),
                     'deciding tests: %s' % sorted(dirs))
+        if nret == 0:
+            R.broken('%s has no return statement' % fn.q)
     for need in ('add_item', 'clear'):
         if not byname.get(need):
             R.broken('ItemStash::%s not found' % need)
@@ -1612,25 +1631,25 @@ def run(ctx):
         special_member_rules(fc, R, core=True)
     R.note('not decided: m_data[cid] in IdSetDenseIterator::next is bounded by the iterator invariant m_value < m_last, not by a dominating test')
     # instance floors = distinct (rule, key) pairs confirmed by reading the tree
-    R.expect('A1-idset-bit-tiling', 7)              # partition + new[] x2 (+ element width) + memset + memcpy
+    R.expect('A1-idset-bit-tiling', 5)              # partition + new[] x2 (+ element width) + memset + memcpy
     R.expect('A2-idset-end-sentinel', 5)            # last(): formula + representable; iterator: jump, members, constructor parameters wide enough
     R.expect('A3-idset-iterator-skips', 4)
-    R.expect('A4-idset-chunk-access-guarded', 6)    # get / get_element: chunk index, byte index pairing, non-null
+    R.expect('A4-idset-chunk-access-guarded', 4)    # get / get_element: chunk index, byte index pairing, non-null
     R.expect('A5-idset-size-tracks-bit-flips', 4)
     R.expect('A6-idset-copy-keeps-chunk-slots', 4)
     R.expect('S1-search-key-prefix-of-sort-key', 2)  # flat_map::get, IdSetSmall::get_binary_search
     R.expect('S2-sort-unique-erase', 4)             # 2 sort_unique x (order, erase)
     R.expect('R1-builders-hand-out-sorted-maps', 8)  # 3 builders: 2 + 2 + 4 maps
-    R.expect('R2-merge-appends-every-element', 5)
+    R.expect('R2-merge-appends-every-element', 4)
     R.expect('R3-narrow-store-guarded', 1)
     R.expect('R3-narrow-lookup-guarded', 1)         # RelationsMapIndex::for_each (F28, fixed by 3df468d)
     R.expect('R4-index-dispatch', 7)
     R.expect('R5-indexes-argument-routing', 4)       # two constructors, build_indexes call sites, accessors
     R.expect('I1-remove-pairs-updates', 4)
-    R.expect('I2-gc-rewrites-index', 5)
-    R.expect('I3-handle-discipline', 7)
+    R.expect('I2-gc-rewrites-index', 4)
+    R.expect('I3-handle-discipline', 5)              # 6 today; keys that name private helpers may merge when a helper is inlined
     R.expect('L1-special-members-memberwise', 5)     # IdSetDense: swap x 2 members, copy constructor x 2 (chunks: see A6), operator=(by value)
-    R.expect('I5-gc-decision-monotone-in-removed', 3)   # should_gc: return false / return true / return <capacity expression>
+    R.expect('I5-gc-decision-monotone-in-removed', 1)   # should_gc (one instance per decision function, whatever its statement structure)
     R.expect('I4-no-stale-buffer-offset', 1)       # add_item (the only method holding a buffer position in a local)
 
 
